@@ -492,13 +492,15 @@ def _lock_term(t, nb=8, nm=8):
 
 
 def shared(ctx):
-    ob = ctx.ob("C01.6", "the data path is only correct if the bank state tracking is (shared with C02.2 typestate and C02.3 auto-precharge "
-                         "consistency): a column command to a bank the DRAM has closed returns garbage / drops the write", 4)
+    ob = ctx.ob("C01.6", "the data path is only correct if the bank state tracking is (shared with C02.2 typestate, C02.3 auto-precharge consistency and C02.5 "
+                         "'an accepted command is steered to the bus'): a column command to a bank the DRAM has closed - or whose activate was acknowledged but never "
+                         "issued - returns garbage / drops the write", 4)
     from ..report import Ctx
     from . import c02
     sub = Ctx("C02", ctx.tier, ctx.seed, ctx.repo)
     c02.typestate(sub)
     c02.auto_precharge(sub)
+    c02.steering(sub)
     for o in sub.obligations:
         for i in o.instances:
             ob.instance(o.oid + ": " + i["what"], i["detail"])
